@@ -80,10 +80,13 @@ impl MirroredClient {
                         break;
                     }
 
-                    // Incoming data from server (we read to clear the socket buffer and discard the data)
-                    recv_result = server.recv(None) => {
+                    // Incoming data from server (we read to clear the socket buffer and discard the data).
+                    // This branch is cancelled whenever another one fires, so it must not use
+                    // `recv`, which loses its place in the stream when dropped half way through
+                    // a message and then interprets payload bytes as a message header.
+                    recv_result = server.discard_incoming() => {
                         match recv_result {
-                            Ok(message) => trace!("Received from mirror: {} {:?}", String::from_utf8_lossy(&message[..]), address.clone()),
+                            Ok(bytes) => trace!("Received {} bytes from mirror {:?}", bytes, address.clone()),
                             Err(err) => {
                                 server.mark_bad(
                                     format!("Failed to send to mirror, Discarding message {:?}, {:?}", err, address.clone()).as_str()
